@@ -6,7 +6,7 @@
 (***************************************************************************)
 EXTENDS Trees, Json
 
-CONSTANTS Known, AsBuilt
+CONSTANTS Known, AsBuilt, Judge        \* Judge = "C10": file rules and tree plumbing; "C19": the mergeability prediction for the same commits
 TL == ndJsonDeserialize("trace.ndjson")
 VARIABLE l
 
@@ -35,9 +35,15 @@ Harmless(o, sc) ==
          /\ P \subseteq ToSet(o.entries[n].seen) /\ o.entries[n].junk = <<>>
          /\ o.rewrite[n] = "same" /\ o.lookup[n] = "ok"
 
+\* C19 on this family: the prediction made before the commits were recorded agrees with verification once they are recorded
+ClassifyMerge(o) ==
+    IF (o.mergeable = "ok") = (o.verdict = "ok") THEN [cls |-> "conform"]
+    ELSE [cls |-> "violation", why |-> "mergeability predicted " \o o.mergeable \o " but the recorded merge verifies as " \o o.verdict]
+
 Classify(o) ==
     LET sc == Scn(o) IN
-    IF Explains(o, sc, {}) THEN [cls |-> "conform"]
+    IF Judge = "C19" THEN ClassifyMerge(o)
+    ELSE IF Explains(o, sc, {}) THEN [cls |-> "conform"]
     ELSE LET Ss == {S \in SUBSET AsBuilt : S # {} /\ Explains(o, sc, S)} IN
          IF Ss # {} THEN [cls |-> "known", dev |-> CHOOSE S \in Ss : \A T \in Ss : Cardinality(S) <= Cardinality(T)]
          ELSE IF Harmless(o, sc) THEN [cls |-> "safe", why |-> "stricter than required"]
